@@ -146,6 +146,21 @@ def fixed():
     same('segments_switched_inside', t)
 
     t = Tree()
+    t.files['main.asm'] = ['.message "main first"', '.include "lib/a.inc"', '.warning "main last"', 'ret']
+    t.files['lib/a.inc'] = ['.message "a first"', '.include "b.inc"', '.message "a last"', 'nop']
+    t.files['lib/b.inc'] = ['.warning "b only"', 'sleep']
+    same('messages_of_included_files_in_place', t)
+
+    t = Tree()
+    t.files['main.asm'] = ['nop', '.include "sub/a.inc"']
+    t.files['sub/a.inc'] = ['.include "gone.inc"']
+    ws.append(('missing_nested_file_is_an_error_naming_it', t.job('main.asm'), ('err_naming', 'gone.inc')))
+
+    t = Tree()
+    t.files['other.asm'] = ['nop']
+    ws.append(('missing_main_file_is_an_error_naming_it', t.job('main.asm'), ('err_naming', 'main.asm')))
+
+    t = Tree()
     t.files['main.asm'] = ['nop', '.include "nowhere.inc"', 'ret']
     ws.append(('missing_file_is_an_error_naming_it', t.job('main.asm'), ('err_naming', 'nowhere.inc')))
 
@@ -170,7 +185,7 @@ def fixed():
 
 
 # ------------------------------------------------------------------------------------------------ generated witnesses
-BODY = ['nop', 'ret', 'sleep', 'ldi r16, {n}', 'ldi r17, low({n}+1)', 'mov r{r}, r{s}', 'add r{r}, r{s}', '.db {n}, {m}', '.dw {n}', 'rjmp PC+{k}', 'call {n}']
+BODY = ['.message "m{n}"', '.warning "w{m}"', 'nop', 'ret', 'sleep', 'ldi r16, {n}', 'ldi r17, low({n}+1)', 'mov r{r}, r{s}', 'add r{r}, r{s}', '.db {n}, {m}', '.dw {n}', 'rjmp PC+{k}', 'call {n}']
 
 
 def gen_tree(rnd):
